@@ -81,7 +81,12 @@ def d1_engage(ctx):
         ctx.chk.ob("D1", "is_stalled == connected & in_flight >= min & proof != 0 & now - proof >= effective window", spa.equivalent(rt, want),
                    "RT = %s" % spa.show(rt), key="D1:is-stalled-predicate")
     ev = field_stores(f, CONN, "stall_gate_events")
-    ok = len(ev) == 1 and pa.entails(pa.pc_at(ev[0][0], ev[0][1]), F["since0"]) and pa.entails(pa.pc_at(ev[0][0], ev[0][1]), F["engage"])
+    # the counter is bumped right after the engage store (which has just overwritten the `since == 0` it was guarded by):
+    # tie it to that store by dominance
+    cfg = ctx.cfg(f)
+    eng = [(bb, si) for (bb, si, s_) in field_stores(f, CONN, "stall_latched_since_ms") if pa.fa.val_rvalue(s_["rv"], (bb, si)) == NOW]
+    ok = len(ev) == 1 and len(eng) == 1 and (cfg.dominates(eng[0][0], ev[0][0])) and not cfg.in_cycle(ev[0][0]) and \
+        pa.fa.val_rvalue(ev[0][2]["rv"], (ev[0][0], ev[0][1])) == ("bin", "Add", ("const", 1, "u64"), fld("stall_gate_events"), "u64")
     ctx.chk.ob("D1", "engagements are counted on the rising edge only", ok, "", key="D1:events-rising-edge")
     ctx.WHO_WRITES("D1", CONN, "stall_gate_events", {USL}, floor=1, allow_agg_in={CONN + "::new_registering"})
 
